@@ -80,6 +80,9 @@ def tensor_attr(it: Any, v: TV, attr: str, node: Any) -> Any:
             return TV(T("attr", (v.term, attr)), dtype=v.dtype, alias=v.alias)
     if attr.startswith("__") and attr.endswith("__") and attr not in ("__class__", "__dict__", "__name__", "__qualname__", "__get__"):
         return TV(T("attr", (v.term, attr)), kind="opaque")
+    if v.kind == "opaque":
+        # attribute or bound method of an opaque object: decided by how it is used
+        return TV(T("attr", (v.term, attr)), kind="opaque", alias=v.alias)
     return A._Builtin(f"method.{attr}", lambda it2, a, k, nd, recv=v, at=attr: tensor_method(it2, recv, at, a, k, nd))
 
 
